@@ -21,7 +21,15 @@ META = {
     "design_ref": "6 C20",
 }
 
-THEOREMS = ["C20_stub"]
+THEOREMS = [
+    "C20_queue",
+    "C20_term",
+    "C20_once",
+    "C20_paths",
+    "C20_paths_cwd",
+    "C20_missing",
+    "C20_missing_error",
+]
 BLOCKS = ["cell", "surface", "data"]
 NAMES = ["sub", "part", "cells", "geom", "inc", "x", "deck", "Mats"]
 EXTS = [".i", ".imcnp", ".txt", "", ".inp", ".mcnp"]
